@@ -86,6 +86,11 @@ def check(run, section, items):
             run.count(section, 1, 'outside_domain_paths')
             continue
         conv = kept
+        if len(before) + len(after) > 400:
+            # the executable world model is quadratic in the size of the tree: trees this large (a directory copied into itself by a
+            # defective move, ...) are left to the trace tie and the oracles
+            run.count(section, 1, 'world_too_large')
+            continue
         nodes = [tok_s('/'), 'd'] if '/' not in before else []          # the snapshots leave the root itself out
         for p, v in before.items():
             nodes += [tok_s(p), _node_tok(v)]
